@@ -35,6 +35,11 @@ import (
 
 var initOnce sync.Once
 
+// realStderr keeps the original *os.File of descriptor 2 reachable: if it were
+// garbage collected its finalizer would close the descriptor, and the
+// runtime's own crash reports (which go to fd 2) would be lost.
+var realStderr = os.Stderr
+
 // Init sets storrent's globals the way main() does and silences its logging.
 func Init() {
 	initOnce.Do(func() {
